@@ -20,14 +20,14 @@ COUNTS = {"calls": 0, "subscripts": 0, "contains": 0, "mods": 0, "ticks": 0}
 
 TRACE = False  # trace mode (C09 threads): also route attribute loads/stores and item stores through the tracer
 
-_TRACE_HELPERS = "from symx.trace import ga as _sx_ga, sa as _sx_sa, si as _sx_si"
+_TRACE_HELPERS = "from symx.trace import ga as _sx_ga, sa as _sx_sa, si as _sx_si, it as _sx_it"
 _HELPERS = "from symx.rt import call as _sx_call, getitem as _sx_getitem, contains as _sx_contains, mod as _sx_mod, tick as _sx_tick"
 
 
 class _Tx(ast.NodeTransformer):
     def visit_Call(self, node):
         self.generic_visit(node)
-        if isinstance(node.func, ast.Name) and node.func.id in ("super", "_sx_call", "_sx_getitem", "_sx_ga", "_sx_sa", "_sx_si",
+        if isinstance(node.func, ast.Name) and node.func.id in ("super", "_sx_call", "_sx_getitem", "_sx_ga", "_sx_sa", "_sx_si", "_sx_it",
                                                                "_sx_contains", "_sx_mod", "_sx_tick",
                                                                "locals", "globals", "vars"):
             return node
@@ -146,9 +146,29 @@ class _TraceTx(ast.NodeTransformer):
                 func=ast.Name(id="_sx_si", ctx=ast.Load()), args=[target.value, target.slice, value], keywords=[])), node)
         return None
 
+    def _wrap_it(self, expr):
+        return ast.copy_location(ast.Call(func=ast.Name(id="_sx_it", ctx=ast.Load()), args=[expr], keywords=[]), expr)
+
+    def visit_For(self, node):
+        self.generic_visit(node)
+        node.iter = self._wrap_it(node.iter)
+        return node
+
     def visit_Assign(self, node):
         node.value = self.visit(node.value)
-        if len(node.targets) == 1 and isinstance(node.targets[0], (ast.Attribute, ast.Subscript)):
+        if len(node.targets) > 1:
+            # a = b[k] = v  ->  tmp = v; a = tmp; b[k] = tmp   (each store then goes through its helper)
+            self.tmp = getattr(self, "tmp", 0) + 1
+            name = "_sx_tmp%d" % self.tmp
+            out = [ast.copy_location(ast.Assign(targets=[ast.Name(id=name, ctx=ast.Store())], value=node.value), node)]
+            for t in node.targets:
+                one = ast.copy_location(ast.Assign(targets=[t], value=ast.Name(id=name, ctx=ast.Load())), node)
+                r = self.visit_Assign(one)
+                out.extend(r if isinstance(r, list) else [r])
+            return out
+        if isinstance(node.targets[0], (ast.Tuple, ast.List)):
+            node.value = self._wrap_it(node.value)  # unpacking iterates over the value
+        if isinstance(node.targets[0], (ast.Attribute, ast.Subscript)):
             t = node.targets[0]
             t.value = self.visit(t.value)
             if isinstance(t, ast.Subscript):
